@@ -1,8 +1,8 @@
 (* Extraction of the server model for the history correspondence runs (C03/C04/C14/C15/C16). *)
 From Coq Require Import Extraction ExtrOcamlBasic.
-From Iodine Require Import Codec Hostname DnsName DnsMsg Domain Users Server.
+From Iodine Require Import Codec Hostname DnsName DnsMsg Domain Users Server ServerLoop.
 Extraction Language OCaml.
 Set Extraction Optimize.
-Extraction "extracted/model_srv.ml" Server.recv_datagram Server.tunnel_tun Server.sweep_clear Server.sweep_send
+Extraction "extracted/model_srv.ml" ServerLoop.siter Server.recv_datagram Server.tunnel_tun Server.sweep_clear Server.sweep_send
   Server.init_state Server.zc_frame Server.unz_frame Server.login_stub Server.getu
   Users.init_users DnsMsg.write_dns DnsMsg.dns_encode_query DnsMsg.buf64k DnsMsg.client_extract.
